@@ -283,6 +283,11 @@ def build(run):
             "unexpanded derivative": derivative(f * f * g * dx(metadata=md(quadrature_degree=4)), f, u),
             "lhs-rhs mix": u * v * dx + f * v * dx(metadata=md(k=1)) + u * v * ds(3),
         }
+        # non-affine geometry (the scaling factor has a positive degree) with an estimated degree already attached by the user
+        mq = ufl.Mesh(S.L(ufl.triangle, 2, (2,)))
+        Vq = FunctionSpace(mq, S.L(ufl.triangle, 1))
+        fq, vq = Coefficient(Vq), TestFunction(Vq)
+        forms["quadratic geometry, estimated degree given"] = fq * vq * dx(mq, metadata=md(estimated_polynomial_degree=3, quadrature_degree=4)) + fq * vq * ds(mq, metadata=md(estimated_polynomial_degree=(2, 1)))
         exprs = {"scalar": sin(f) * g + f ** 2, "grad": grad(f * g), "indexed": w[i] * w[i], "tensor": ufl.outer(w, w) + ufl.Identity(2) * f,
                  "cond": conditional(lt(f, g), f, g * c), "variable": variable(f * g) * f}
         return m, forms, exprs, dict(u=u, v=v, f=f, g=g, c=c, w=w, V=V)
